@@ -11,3 +11,19 @@ Definition run_volume_safety (flag : bool) (faces : list (surface float)) (p : v
 Definition run_find_safety (levels : list (bool * list (surface float) * vec3 float)) : float :=
   ofo (find_safety (map (fun l => LV (fst (fst l)) (snd (fst l)) (snd l)) levels)).
 Definition run_calc_safety (s : surface float) (p : vec3 float) : float := ofo (calc_safety s p).
+
+(** ** the MSC users of the safety (C11/Msc.v) *)
+From Celer Require Import C11.Msc.
+Definition run_msc_cdisp (g t : float) : float := calc_displacement g t.
+(** (displaced?, displacement) *)
+Definition run_msc_disp (tol glim : float) (disp : bool) (safety : option float) (g t : float) (udir : vec3 float)
+  : bool * list float :=
+  match msc_displacement tol glim false disp safety g t udir with
+  | Some d => (true, [vx d; vy d; vz d])
+  | None => (false, [0; 0; 0]%float)
+  end.
+(** (bound handed to find_safety, is_displaced afterwards) for a scripted find_safety answer *)
+Definition run_msc_query (tol glim : float) (disp : bool) (g t : float) (answer : option float) : float * bool :=
+  (msc_safety_bound tol glim g t, andb disp (negb (safety_is_zero answer))).
+Definition run_msc_limit (safety range rf ri lmin sf : float) : float := msc_limit safety range rf ri lmin sf.
+Definition run_msc_sample (ms lim lmin sampled : float) : float := msc_step_limit ms lim lmin sampled.
